@@ -2,9 +2,9 @@ package main
 
 import (
 	"fmt"
-	"os"
 	"go/token"
 	"go/types"
+	"os"
 	"sort"
 	"strings"
 
@@ -681,12 +681,12 @@ func (s *Share) instr(fn *ssa.Function, in ssa.Instruction) {
 // ---- calls ---------------------------------------------------------------------------
 
 type bsonSummary struct {
-	result    string // "clean", "part" (shares with arg0, new top for lists), "sub" (a sub-value of arg0)
-	mutates   int    // index of the argument mutated in place (-1 none)
-	deepPath  int    // index of the path argument deciding shallow/deep (-1: always deep)
-	captures  int    // index of the argument captured into the mutated one (-1 none)
-	transfer  []int  // arguments that become stored state
-	permute   bool
+	result   string // "clean", "part" (shares with arg0, new top for lists), "sub" (a sub-value of arg0)
+	mutates  int    // index of the argument mutated in place (-1 none)
+	deepPath int    // index of the path argument deciding shallow/deep (-1: always deep)
+	captures int    // index of the argument captured into the mutated one (-1 none)
+	transfer []int  // arguments that become stored state
+	permute  bool
 }
 
 var bsonkitSummaries = map[string]bsonSummary{
